@@ -73,7 +73,12 @@ def gen_cases(tier, seed):
         ln = lens[i % len(lens)] if i % 3 else rng.randrange(0, 300)
         flag = FLAGS[i % 6]
         mode = i % 3   # 0: plain+flag, 1: preimage+flag arg, 2: preimage, flag parsed from msg
-        yield "api", {"key": hex(key), "msg": rand_bytes(rng, ln).hex(), "flag": flag, "mode": mode, "both_forms": i % 5 == 0}
+        msg = rand_bytes(rng, ln)
+        if i % 7 == 3:
+            # a message that already ENDS with the 4 bytes the signer appends (a legacy transaction with nLockTime 1 signed with
+            # SIGHASH_ALL does): the flag is appended all the same, by the signer and by the verifier
+            msg = msg[:max(0, ln - 4)] + FLAGS[(i // 7) % 6].to_bytes(4, "little") if i % 14 == 3 else msg + flag.to_bytes(4, "little")
+        yield "api", {"key": hex(key), "msg": msg.hex(), "flag": flag, "mode": mode, "both_forms": i % 5 == 0}
     # (a'') INCONSISTENT arguments: a preimage that commits to one signature-hash type, signed "as" another.  No valid signature
     # exists for such a request (the suffix byte could not match the committed type): it is refused, or answered with the committed type
     for i in range(12 if tier == "quick" else 120):
@@ -83,7 +88,7 @@ def gen_cases(tier, seed):
     # (a') the same through the command line: `bits sig <msg> --sighash .. [--anyone-can-pay] [--msg-preimage]`
     for i in range(24 if tier == "quick" else 300):
         yield "cli_sig", {"key": hex(rng.choice(keys) if i % 3 == 0 else rng.randrange(1, N)), "msg": rand_bytes(rng, rng.choice([0, 1, 32, 100])).hex(),
-                          "flag": FLAGS[i % 6], "pre": i % 2 == 1, "fmt": ["hex", "raw", "bin"][i % 3]}
+                          "flag": FLAGS[i % 6], "pre": i % 2 == 1, "fmt": ["hex", "raw", "bin"][i % 3], "omit_default_sighash": (i // 6) % 2 == 0}
     # (c) nonce reuse histories
     for i in range(6 if tier == "quick" else 60):
         yield "reuse", {"pool_seed": rng.getrandbits(32), "nk": 3, "nm": 3}
@@ -105,7 +110,7 @@ def gen_cases(tier, seed):
 
 
 def required(tier):
-    return {"api.signed": 300, "cli.signed": 20, "mismatch.refused": 8, "scripted.signed": 300, "class.s_short_topbit": 20, "class.digest_ge_n": 10,
+    return {"api.signed": 300, "cli.signed": 20, "cli.sighash_default_form": 3, "mismatch.refused": 8, "scripted.signed": 300, "class.s_short_topbit": 20, "class.digest_ge_n": 10,
             "class.retry_s0": 1, "class.r_top_80": 3, "class.r_top_00": 3, "class.r_top_7f": 3, "class.inner_retry_draw0": 5, "reuse.pairs_checked": 100,
             "small.signed": 10000, "small.p43.keys": 30, "small.retry_branch": 10,
             "contract:sign.range_low_s": 1000, "contract:der_encode_sig.strict_roundtrip": 300,
@@ -333,7 +338,11 @@ def run_case(kind, params, ctx):
         msg = bytes.fromhex(params["msg"])
         flag, pre, fmt = params["flag"], params["pre"], params["fmt"]
         signed = msg + flag.to_bytes(4, "little")
-        argv = ["sig", (signed if pre else msg).hex(), "--sighash", {1: "all", 2: "none", 3: "single"}[flag & 3]] + (["--anyone-can-pay"] if flag & 0x80 else []) + \
+        # `--sighash all` is the parser default: when the base type is ALL it is also LEFT OUT (the default has to combine with --anyone-can-pay like the explicit form)
+        sh_opt = [] if (flag & 3) == 1 and params.get("omit_default_sighash") else ["--sighash", {1: "all", 2: "none", 3: "single"}[flag & 3]]
+        if not sh_opt:
+            ctx.count("cli.sighash_default_form")
+        argv = ["sig", (signed if pre else msg).hex()] + sh_opt + (["--anyone-can-pay"] if flag & 0x80 else []) + \
                (["--msg-preimage"] if pre else []) + ["-1" + c20.FMT_FLAG[fmt], "-0x"]
         r = c20.run_main(argv, c20.rep(k32(d), fmt))
         if r["exit"] or r["ret"] is not None:
